@@ -56,14 +56,19 @@ def proj_spec(t):
     return {'st': [[e['k'], e['kl'], e['v'], e['vm'], e['exp'], e['mem']] for e in t['entries']], 'lim': t['limit'], 'now': t['now']}
 
 
-def t1(ctx, exe, c0, names):
-    lines, expect = [], []
-    for name in names:
-        par = dict(EDGE_CONFIGS[name], c0=c0)
-        edges, r = adtb.tlc_edges(ctx, MC, EDGE_CFG % par, 'edges_' + name)
+def t1(ctx, exe, c0, names, cap=None):
+    lines, expect, mismatching = [], [], set()
+    rnd = random.Random(ctx.seed + 51)
+    dumps = adtb.tlc_edges_many(ctx, MC, [('edges_' + n, EDGE_CFG % dict(EDGE_CONFIGS[n], c0=c0)) for n in names])
+    for name, (edges, r) in zip(names, dumps):
         todo, nstates = adtb.edge_paths(edges, lambda s: s['entries'] == [] and s['now'] == 0)
-        ctx.log('T1 %s: TLC %d states, %d unique edges' % (name, nstates, len(todo)))
+        total = len(todo)
+        if cap and total > cap:
+            rnd.shuffle(todo)
+            todo = todo[:cap]
+        ctx.log('T1 %s: TLC %d states, %d unique edges, %d replayed' % (name, nstates, total, len(todo)))
         ctx.add('spec_states_covered', nstates)
+        ctx.add('edges_in_graph', total)
         ctx.add('edges_replayed', len(todo))
         scripts = [['R %d' % s0['limit']] + [cmd_of(a) for a in path] + [cmd_of(e['a']), 'E'] for s0, path, e in todo]
         hs = adtb.run_histories(ctx, exe, scripts)
@@ -76,13 +81,14 @@ def t1(ctx, exe, c0, names):
             bad = last.get('e') == 'Abort' or want != have or ('ret' in e['a'] and e['a']['ret'] != last.get('ret'))
             if bad:
                 mism += 1
+                mismatching.add(len(lines))
                 if len(ctx.drift) < 5:
                     ctx.drift.append('edge replay (%s) %s: spec %s ret=%s, impl %s ret=%s' % (
                         name, ' '.join(sc), json.dumps(want), e['a'].get('ret'), json.dumps(have), last.get('ret', last.get('why'))))
             lines.append(h)
             expect.append(sc)
         ctx.add('edge_mismatches', mism)
-    return lines, expect
+    return lines, expect, mismatching
 
 
 def gen_history(rnd, c0, nops):
@@ -136,11 +142,20 @@ def run(ctx):
     # 1+2. design step and T1 in one TLC run per configuration: the run that prints the edges also checks the invariants,
     # the laws of the reference functions and I => P (MC_ClpMap_{cap,ttl}.cfg / MC_ClpMap.cfg are the same runs without
     # edge printing, with sizeof-independent C0 = 104); a failure there is a machinery error.
-    lines, scripts = t1(ctx, exe, c0, ['cap', 'ttl'] + (['all'] if ctx.thorough else []))
+    lines, scripts, mismatching = t1(ctx, exe, c0, ['cap', 'ttl'] + (['all'] if ctx.thorough else []), cap=150000)
+    # A replay whose outcome equals TLC's target state and return value is an I-behaviour (and TLC has just checked I => P).
+    # The trace specs get every replay that differs plus a seeded sample of the others (quick: all of them).
+    rnd1 = random.Random(ctx.seed + 5151)
+    rest = [i for i in range(len(lines)) if i not in mismatching]
+    rnd1.shuffle(rest)
+    keep = sorted(set(list(mismatching)[:3000]) | set(rest[:30000 if ctx.thorough else 6000]))
+    ctx.cov['edge_replays_validated_by_trace_spec'] = len(keep)
+    lines = [lines[i] for i in keep]
+    scripts = [scripts[i] for i in keep]
     n_t1 = len(lines)
     # 3. T2
     rnd = random.Random(ctx.seed * 7919 + 51)
-    nh, nops = (1200, 400) if ctx.thorough else (150, 300)
+    nh, nops = (1200, 400) if ctx.thorough else (120, 250)
     t2s = [gen_history(rnd, c0, nops) for _ in range(nh)]
     hs = adtb.run_histories(ctx, exe, t2s)
     for h in hs:
@@ -161,8 +176,7 @@ def run(ctx):
     ctx.cov['adds_purging'] = sum(1 for l in lines for a, b in zip(l['ev'], l['ev'][1:]) if b['e'] == 'Add' and b['ret'] and b['n'] <= a['n'] - 1)
     ctx.cov['adds_rejected'] = sum(1 for l in lines for e in l['ev'] if e['e'] == 'Add' and not e['ret'])
     # 4. TLC decides: P-layer (violation), I-layer (drift)
-    rejP, reached = adtb.validate(ctx, TRACE, CFG_P, lines, 'c51-P')
-    rejI, _ = adtb.validate(ctx, TRACE, CFG_I, lines, 'c51-I', count=False)
+    rejP, reached, rejI = adtb.validate_both(ctx, (TRACE, CFG_P), (TRACE, CFG_I), lines, 'c51')
     ctx.log('TLC validated %d histories (%d edge replays, %d random): P-rejected %d, I-rejected %d' % (
         len(lines), n_t1, len(hs), len(rejP), len(rejI)))
     report(ctx, lines, scripts, rejP, reached, 'ClpMap')
@@ -177,8 +191,8 @@ def run(ctx):
     ctx.cov['rule'] = ('T1: full reachable graph of ClpMapImpl for the configurations cap (3 keys x light/heavy value x 4 capacities), ttl (2 keys x '
                        'ttl {-1,0,1,max} x 3 capacities x clock 0..3)%s; every unique (state, action) edge is reached by a shortest path on the real '
                        'ClpMap and compared. T2: seeded random histories (%d ops, up to 12 keys, key length 1..40, weights 0..1000 and 2^64-1, capacities '
-                       '0..20 entries and 2^64-1, ttl -5..2^30 and INT_MAX, clock steps 0..1000). Every history is validated by TLC against '
-                       'the P-layer and the I-layer. Non-trivial = distinct event sequences.' % (', all (3 keys, 3 values, 4 ttls, 5 capacities)' if ctx.thorough else '', nops))
+                       '0..20 entries and 2^64-1, ttl -5..2^30 and INT_MAX, clock steps 0..1000). Histories are validated by TLC against '
+                       'the P-layer and the I-layer. Non-trivial = distinct event sequences.' % (', all (3 keys, 3 values, 4 ttls, 5 capacities; at most 150000 edges sampled)' if ctx.thorough else '', nops))
     ctx.assumptions += ['value weight is supplied by the driver (MemoryUsedBy = stored weight); keys are std::string, length() = bytes',
                         'clock = squid_curtime set by the driver; times stay below 2^31 s after the driver epoch (time_t saturation not explored)',
                         'driver linked like tests/testClpMap (mem/libminimal.la), compiled from the working tree with ASan+UBSan',
